@@ -19,8 +19,13 @@ func Copy(source, dest string) error {
 	defer out.Close()
 	_, err = io.Copy(out, in)
 	cerr := out.Close()
+	if err == nil {
+		err = cerr
+	}
 	if err != nil {
+		/* Don't leave half a file behind. */
+		os.Remove(dest)
 		return err
 	}
-	return cerr
+	return nil
 }
